@@ -1,5 +1,5 @@
 (** Proofs for C05. *)
-From InvokeVerif Require Import Model.ExitModel Spec.C05Spec.
+From InvokeVerif Require Import Model.ExitModel Spec.C05Spec Corr.C05Corr.
 From Coq Require Import Lia ZArith.
 
 Local Open Scope Z_scope.
@@ -76,22 +76,38 @@ Lemma optz_eqb_refl a : optz_eqb a a = true.
 Proof. destruct a; cbn; [apply Z.eqb_refl | reflexivity]. Qed.
 
 (** flagship: the decision tail satisfies the specification, for every situation *)
+Theorem run_outcome_meets_spec s : spec_finish s (run_outcome s) = true.
+Proof.
+  destruct s as [te we ts to st w su bp]. unfold spec_finish, expected_raise, run_outcome, finish.
+  cbn [s_thread_excs s_watcher_errs s_timeout_set s_timed_out s_status s_warn s_sudo s_bad_password].
+  assert (X : forall e, optz_eqb (rv_exited (result_of e)) e = true) by (intros e; apply optz_eqb_refl).
+  assert (B : rv_bool (result_of (Some st)) = (st =? 0)) by reflexivity.
+  destruct (Nat.eqb te 0); cbn [negb].
+  2:{ destruct su; reflexivity. }
+  destruct (Nat.eqb we 0); cbn [negb].
+  2:{ destruct su, bp; cbn [sudo_wrap andb]; rewrite view_ok_result_of; reflexivity. }
+  destruct (ts && to)%bool.
+  1:{ destruct su; cbn [sudo_wrap]; rewrite view_ok_result_of, X; reflexivity. }
+  rewrite B. destruct (st =? 0); cbn [negb orb andb].
+  - destruct su; cbn [sudo_wrap]; rewrite view_ok_result_of, X; reflexivity.
+  - destruct w; cbn [negb orb andb]; destruct su; cbn [sudo_wrap]; rewrite view_ok_result_of, X; reflexivity.
+Qed.
+
+(** the runner alone (no sudo wrapper) *)
 Theorem finish_meets_spec s :
+  s_sudo s = false ->
   spec_finish s (finish (s_thread_excs s) (s_watcher_errs s) (s_timeout_set s) (s_timed_out s)
                         (Some (s_status s)) (s_warn s)) = true.
 Proof.
-  destruct s as [te we ts to st w]. unfold spec_finish, expected_raise, finish.
-  cbn [s_thread_excs s_watcher_errs s_timeout_set s_timed_out s_status s_warn].
-  assert (X : forall e, optz_eqb (rv_exited (result_of e)) e = true) by (intros e; apply optz_eqb_refl).
-  assert (B : rv_bool (result_of (Some st)) = (st =? 0)) by reflexivity.
-  destruct (Nat.eqb te 0); cbn [negb]; [|reflexivity].
-  destruct (Nat.eqb we 0); cbn [negb].
-  2:{ rewrite view_ok_result_of. reflexivity. }
-  destruct (ts && to)%bool.
-  1:{ rewrite view_ok_result_of, X. reflexivity. }
-  rewrite B. destruct (st =? 0); cbn [negb orb andb].
-  - rewrite view_ok_result_of, X. reflexivity.
-  - destruct w; cbn [negb orb andb]; rewrite view_ok_result_of, X; reflexivity.
+  intros H. pose proof (run_outcome_meets_spec s) as R. unfold run_outcome in R. now rewrite H in R.
+Qed.
+
+(** sudo keeps every failure type except the rejected password *)
+Theorem sudo_keeps_failure_types bp o :
+  sudo_wrap bp o = o \/ (bp = true /\ exists r, o = Raise RFailure r /\ sudo_wrap bp o = Raise RAuthFailure r).
+Proof.
+  destruct o as [r|k r|]; try (left; reflexivity).
+  destruct k; try (left; reflexivity). destruct bp; [right; eauto | left; reflexivity].
 Qed.
 
 Theorem return_iff te we ts to rc w r :
@@ -129,6 +145,7 @@ Theorem raise_order te we ts to rc w :
   | Raise RUnexpectedExit r =>
       te = 0%nat /\ we = 0%nat /\ (ts && to = false)%bool /\ rc <> Some 0 /\ w = false /\
       r = Some (result_of rc)
+  | Raise RAuthFailure _ => False
   | Return r => True
   | OtherOutcome => False
   end.
@@ -156,12 +173,12 @@ Qed.
 Theorem real_child_meets_spec e core warn :
   match e with Exited c => 0 <= c <= 255 | Killed s => 1 <= s <= 126 end ->
   let raw := match e with Exited c => exit_status c | Killed s => sig_status s core end in
-  spec_finish (mkSit 0 0 false false (true_status e) warn)
+  spec_finish (mkSit 0 0 false false (true_status e) warn false false)
               (finish 0 0 false false (pty_returncode raw) warn) = true.
 Proof.
   intros H raw. assert (E : pty_returncode raw = Some (true_status e)).
   { unfold raw. destruct e; [now apply decode_exit | now apply decode_signal]. }
-  rewrite E. apply (finish_meets_spec (mkSit 0 0 false false (true_status e) warn)).
+  rewrite E. apply (finish_meets_spec (mkSit 0 0 false false (true_status e) warn false false)). reflexivity.
 Qed.
 
 (** * (d) the program's exit code *)
